@@ -30,7 +30,7 @@ def main():
         rc2, out2 = sh("cargo test --offline --test %s 2>&1 | tail -25" % demo, cwd=wt, env=env)
         demo_fails = "FAILED" in out2 or "panicked" in out2
         os.remove("%s/tests/%s.rs" % (wt, demo))
-        rc, patch = sh("git diff", cwd=wt)
+        rc, patch = sh("git diff HEAD", cwd=wt)
         ok = clean_pass and applied and suite_pass and demo_fails
         print("%s-%s: demo_on_clean_passes=%s patch_applies=%s suite_passes_with_patch=%s demo_fails_with_patch=%s => %s" % (pid, v, clean_pass, applied, suite_pass, demo_fails, "CONFIRMED" if ok else "REJECTED"))
         if not ok:
